@@ -19,6 +19,7 @@ import (
 	"sort"
 	"strings"
 	"sync"
+	"sync/atomic"
 	"time"
 
 	getoptions "github.com/DavidGamba/go-getoptions"
@@ -408,8 +409,21 @@ func (r *run) readyList() []int {
 	return out
 }
 
-// StallBound is how long the driver waits for the state the model requires.
+// StallBound is how long the driver waits for the state the model requires. When it expires the wait is
+// extended by StallConfirm: a loaded machine makes progress eventually, a lost wake-up / deadlock never does.
+// Only a wait that is still stuck after StallBound+StallConfirm is reported ("STALL-CONFIRMED"). Once a stall
+// has been confirmed in a process, later ones (shrinking re-executes the same hang) use the short bound.
 var StallBound = 5 * time.Second
+var StallConfirm = 30 * time.Second
+var stallSeen int32
+
+// stallWait is the wait that, when it expires, is reported as a stall.
+func stallWait() time.Duration {
+	if atomic.LoadInt32(&stallSeen) != 0 {
+		return StallBound
+	}
+	return StallBound + StallConfirm
+}
 
 func init() {
 	if v := os.Getenv("VERIF_STALL_BOUND"); v != "" {
@@ -547,13 +561,14 @@ func Execute(c *DagCase) *Result {
 	returned := false
 
 	stall := func(what string) {
+		atomic.StoreInt32(&stallSeen, 1)
 		res.Stalled = true
 		buf := make([]byte, 1<<16)
 		n := runtime.Stack(buf, true)
 		res.Dump = string(buf[:n])
 		r.mu.Lock()
 		infl := len(r.inflight)
-		r.viol("C16", "STALL: %s (bound %s): %d task functions in flight, Run has not returned", what, StallBound, infl)
+		r.viol("C16", "STALL-CONFIRMED: %s (still stuck after %s + %s): %d task functions in flight, Run has not returned", what, StallBound, StallConfirm, infl)
 		r.abandoned = true
 		r.mu.Unlock()
 		// let everything go so that no task goroutine outlives the case
@@ -618,6 +633,18 @@ func Execute(c *DagCase) *Result {
 		if len(ids) == 0 {
 			return true
 		}
+		if !returned {
+			select {
+			case runErr = <-runDone:
+				returned = true
+				r.mu.Lock()
+				r.viol("C16", "Run returned (%v) while %d task function(s) were still executing: %v", runErr, len(ids), idsOf(ids))
+				r.viol("C14", "Run returned (%v) while %d task function(s) were still executing (in-flight tasks must be allowed to finish before Run reports)", runErr, len(ids))
+				r.abandoned = true
+				r.mu.Unlock()
+			default:
+			}
+		}
 		ch := 0
 		if choiceIdx < len(c.Choices) {
 			ch = c.Choices[choiceIdx]
@@ -648,13 +675,13 @@ func Execute(c *DagCase) *Result {
 		}
 		select {
 		case r.gates[i] <- e:
-		case <-time.After(StallBound):
+		case <-time.After(stallWait()):
 			stall("task " + taskID(i) + " does not take its release")
 			return false
 		}
 		select {
 		case <-r.finished:
-		case <-time.After(StallBound):
+		case <-time.After(stallWait()):
 			stall("task " + taskID(i) + " did not finish after its release")
 			return false
 		}
@@ -664,6 +691,18 @@ func Execute(c *DagCase) *Result {
 
 LOOP:
 	for {
+		if returned {
+			// Run is gone (flagged above): let the remaining task functions go and stop
+			for {
+				r.mu.Lock()
+				n := len(r.inflight)
+				r.mu.Unlock()
+				if n == 0 || !release() {
+					break
+				}
+			}
+			break LOOP
+		}
 		if c.CancelAfter >= 0 && released == c.CancelAfter && !res.Cancelled && !noTasks {
 			// cancel only at a quiescent point of normal mode (handled below) or right away in drain mode
 			r.mu.Lock()
@@ -716,7 +755,7 @@ LOOP:
 					r.viol("C16", "Run returned while %d task(s) whose dependencies had all completed were never started (no failure or cancellation so far)", want-n)
 					r.mu.Unlock()
 					break LOOP
-				case <-time.After(StallBound):
+				case <-time.After(stallWait()):
 					r.mu.Lock()
 					n2 := len(r.inflight)
 					ready := r.readyList()
@@ -735,6 +774,9 @@ LOOP:
 			if want == 0 {
 				// nothing running, nothing can run: Run must return
 				for {
+					if returned {
+						break LOOP
+					}
 					select {
 					case runErr = <-runDone:
 						returned = true
@@ -751,7 +793,7 @@ LOOP:
 						if n > 0 {
 							continue LOOP
 						}
-					case <-time.After(StallBound):
+					case <-time.After(stallWait()):
 						stall("nothing is in flight and nothing can run any more")
 						break LOOP
 					}
@@ -781,7 +823,7 @@ LOOP:
 		case runErr = <-runDone:
 			returned = true
 			break LOOP
-		case <-time.After(StallBound):
+		case <-time.After(stallWait()):
 			stall("drain: nothing in flight")
 			break LOOP
 		}
@@ -906,6 +948,8 @@ func (r *run) checkResult(noTasks bool) {
 		}
 	}
 }
+
+func idsOf(xs []int) []string { return ids(xs) }
 
 func ids(xs []int) []string {
 	var out []string
